@@ -153,7 +153,7 @@ pub fn gen_program(d: &mut Dec, thorough: bool) -> Case {
         // larger repetition counts around powers of two
         let mi = d.below(modes.len());
         let pi = d.below(modes[mi].pats.len());
-        let n = *d.pick(&[15u32, 16, 17, 31, 33, 63, 64, 65, 127, 129]);
+        let n = *d.pick(&[15u32, 16, 17, 31, 33, 63, 64, 65, 127, 129, 255, 257, 300, 513]);
         let inner = crate::rx::Rx::Lit(gen::gen_char(d), crate::rx::LitForm::Verbatim);
         let rep = match d.below(3) {
             0 => crate::rx::Rx::Repeat(Box::new(inner), n, Some(n)),
